@@ -19,8 +19,8 @@ var irregularBoxes = map[string]string{
 // valueIrregular: layout shape (kinds, widths, loops, order) is compared, values are not, because the
 // decoder stores a value that is derived from, not equal to, what is on the wire.
 var valueIrregular = map[string]string{
-	"DecodeCttsSR":             "sample counts are stored as a running sum (EndSampleNr) and written back as differences",
-	"DecodeLoudnessBaseBoxSR":  "12-bit signed fields are sign-extended with shift pairs",
+	"DecodeCttsSR":            "sample counts are stored as a running sum (EndSampleNr) and written back as differences",
+	"DecodeLoudnessBaseBoxSR": "12-bit signed fields are sign-extended with shift pairs",
 }
 
 // normalisations: disagreements between decoder and encoder that are accepted, committed normalisations of
@@ -33,24 +33,24 @@ var normalisations = map[string]string{
 // "w<width>:c<constant>". This is the committed list of reserved / pre_defined fields; a run that is not
 // listed means a field is silently dropped by the decoder (or newly discarded) and is reported.
 var dontCareLedger = map[string][]string{
-	"DecodeAudioSampleEntrySR": {"w16:c0x0", "w32:c0x0", "w48:c0x0", "w64:c0x0"},
-	"DecodeAv1CSR": {"w1:c0x1"},
-	"DecodeAvcCSR": {"w3:c0x7", "w5:c0x1f", "w6:c0x3f", "w8:c0x1"},
-	"DecodeColrSR": {"w7:c0x0"},
-	"DecodeDac3SR": {"w8:c0x0"},
-	"DecodeDataSR": {"w64:c0x100000000"},
-	"DecodeDec3SR": {"w1:c0x0", "w3:c0x0"},
-	"DecodeEmibSR": {"w32:c0x0"},
-	"DecodeEvteSR": {"w48:c0x0"},
-	"DecodeHvcCSR": {"w4:c0xf", "w5:c0x1f", "w6:c0x3f"},
-	"DecodeMdhdSR": {"w16:c0x0"},
-	"DecodeMvhdSR": {"w560:c0x0"},
-	"DecodeSidxSR": {"w16:c0x0"},
-	"DecodeSmhdSR": {"w16:c0x0"},
-	"DecodeStppSR": {"w48:c0x0"},
-	"DecodeTencSR": {"w16:c0x0", "w8:c0x0"},
-	"DecodeTfraSR": {"w26:c0x0"},
-	"DecodeTkhdSR": {"w304:c0x0", "w32:c0x0", "w64:c0x0"},
+	"DecodeAudioSampleEntrySR":  {"w16:c0x0", "w32:c0x0", "w48:c0x0", "w64:c0x0"},
+	"DecodeAv1CSR":              {"w1:c0x1"},
+	"DecodeAvcCSR":              {"w3:c0x7", "w5:c0x1f", "w6:c0x3f", "w8:c0x1"},
+	"DecodeColrSR":              {"w7:c0x0"},
+	"DecodeDac3SR":              {"w8:c0x0"},
+	"DecodeDataSR":              {"w64:c0x100000000"},
+	"DecodeDec3SR":              {"w1:c0x0", "w3:c0x0"},
+	"DecodeEmibSR":              {"w32:c0x0"},
+	"DecodeEvteSR":              {"w48:c0x0"},
+	"DecodeHvcCSR":              {"w4:c0xf", "w5:c0x1f", "w6:c0x3f"},
+	"DecodeMdhdSR":              {"w16:c0x0"},
+	"DecodeMvhdSR":              {"w560:c0x0"},
+	"DecodeSidxSR":              {"w16:c0x0"},
+	"DecodeSmhdSR":              {"w16:c0x0"},
+	"DecodeStppSR":              {"w48:c0x0"},
+	"DecodeTencSR":              {"w16:c0x0", "w8:c0x0"},
+	"DecodeTfraSR":              {"w26:c0x0"},
+	"DecodeTkhdSR":              {"w304:c0x0", "w32:c0x0", "w64:c0x0"},
 	"DecodeVisualSampleEntrySR": {"w128:c0x0", "w272:c0x0", "w280:c0x0", "w32:c0x0", "w32:c0x18ffff", "w40:c0x18ffff", "w48:c0x0"},
-	"DecodeWvttSR": {"w48:c0x0"},
+	"DecodeWvttSR":              {"w48:c0x0"},
 }
